@@ -75,6 +75,8 @@ def rand_type(rng, depth, top=False):
         return T("array", n=1 + rng.below(3), e=rand_prim(rng))
     if r < 17:
         e = rand_prim(rng) if rng.chance(0.5) else (T("iface") if rng.chance(0.4) else rand_type(rng, depth - 1, top=True))
+        if rng.chance(0.15):
+            return T("map", e=e, nk=True)       # map[NamedKey]T, NamedKey defined from string (D51)
         return T("map", e=e)
     if r < 18:
         return T("iface")
